@@ -54,7 +54,7 @@ def treehash():
         with open(wf, "rb") as fh:
             h.update(os.path.basename(wf).encode() + hashlib.sha256(fh.read()).digest())
     for tool in (os.path.join(MIRFACTS_DIR, "src", "main.rs"),
-                 os.path.join(SYNFACTS_DIR, "src", "main.rs")):
+                 os.path.join(SYNFACTS_DIR, "src", "main.rs"), os.path.abspath(__file__)):
         if os.path.exists(tool):
             with open(tool, "rb") as fh:
                 h.update(hashlib.sha256(fh.read()).digest())
@@ -240,11 +240,37 @@ def _strip_hash(p):
     return p
 
 
-SETS = ("core", "gen-functions", "gen-arrays", "witness")
+SETS = ("core", "gen-functions", "gen-arrays", "witness", "matrix")
+MATRIX_CONFIGS = [
+    [], ["-g", "arrays"], ["-p", "glr"], ["-p", "glr", "-g", "arrays"],
+    ["--builder-type", "generic"], ["-p", "glr", "--builder-type", "generic", "-g", "arrays"],
+    ["--builder-loc-info"], ["-p", "glr", "--builder-loc-info"],
+    ["-t", "lalr"], ["--partial-parse", "--no-skip-ws", "--lexical-disamb-most-specific=false"],
+]
+
+
+def matrix_jobs():
+    """thorough tier: every grammar of the repository and every witness x a fixed list of configurations"""
+    jobs = []
+    seen = set()
+    for gpath in sorted(glob.glob(os.path.join(REPO, "**", "*.rustemo"), recursive=True)) + \
+            sorted(glob.glob(os.path.join(WITNESS_DIR, "*.rustemo"))):
+        if "/target/" in gpath:
+            continue
+        bn = os.path.basename(gpath)
+        if gpath.startswith(WITNESS_DIR) and (bn[0] == "d" and bn[1].isdigit() or bn.startswith("kw_")):
+            continue   # witnesses of known findings stay in the witness set only
+        rel = os.path.relpath(gpath, REPO) if gpath.startswith(REPO) else "fixtures/" + os.path.basename(gpath)
+        tag = rel[:-len(".rustemo")].replace("/", "_").replace("-", "_").replace(".", "_")
+        if tag in seen:
+            continue
+        seen.add(tag)
+        jobs.append((gpath, MATRIX_CONFIGS, tag))
+    return jobs
 WITNESS_DIR = os.path.join(VERIF, "fixtures", "grammars")
 
 
-def _extract_witness(scratch, outdir):
+def _extract_witness(scratch, outdir, jobs=None):
     """Builds rcomp (hook on) from the scratch copy, runs it over the fixed witness grammars
     (fixtures/grammars/*.rustemo, configurations in their `// args:` header lines), collects dumps and
     generated files, and type-checks the generated code in a throw-away crate."""
@@ -263,16 +289,22 @@ def _extract_witness(scratch, outdir):
         raise ToolError("rcomp does not build:\n" + r.stderr[-3000:])
     rcomp = os.path.join(env["CARGO_TARGET_DIR"], "debug", "rcomp")
     index = []
-    crate = os.path.join(scratch.dir, "wcrate")
+    crate = os.path.join(scratch.dir, "wcrate-" + os.path.basename(outdir))
     os.makedirs(os.path.join(crate, "src"))
     mods = []
     n = 0
-    for gpath in sorted(glob.glob(os.path.join(WITNESS_DIR, "*.rustemo"))):
+    if jobs is None:
+        jobs = []
+        for gpath in sorted(glob.glob(os.path.join(WITNESS_DIR, "*.rustemo"))):
+            text = open(gpath).read()
+            configs = [l[len("// args:"):].split() for l in text.splitlines() if l.startswith("// args:")] or [[]]
+            jobs.append((gpath, configs, None))
+    for gpath, configs, tag in jobs:
         base = os.path.basename(gpath)[:-len(".rustemo")]
         text = open(gpath).read()
-        configs = [l[len("// args:"):].split() for l in text.splitlines() if l.startswith("// args:")] or [[]]
         for k, args in enumerate(configs):
-            modname = "w_%s_%d" % (base, k)
+            modname = "w_%s_%d" % (tag or base, k)
+            modname = "".join(c if c.isalnum() or c == "_" else "_" for c in modname)
             wdir = os.path.join(crate, "src", modname)
             os.makedirs(wdir)
             shutil.copyfile(gpath, os.path.join(wdir, base + ".rustemo"))
@@ -280,8 +312,8 @@ def _extract_witness(scratch, outdir):
             e2 = dict(env, RUSTEMO_VERIF_DUMP_DIR=tdir)
             rr = subprocess.run([rcomp] + args + [os.path.join(wdir, base + ".rustemo")], env=e2, capture_output=True,
                                 text=True, cwd=wdir)
-            serves = " ".join(l[len("// for:"):] for l in text.splitlines() if l.startswith("// for:")).split()
-            entry = {"witness": base, "config": args, "module": modname, "serves": serves, "rc": rr.returncode,
+            serves = " ".join(l[len("// for:"):] for l in text.splitlines() if l.startswith("// for:")).split() or ["C08", "C10", "C11"]
+            entry = {"witness": tag or base, "config": args, "module": modname, "serves": serves, "rc": rr.returncode,
                      "panicked": "panicked at" in rr.stderr, "not_generated": "Parser(s) not generated" in rr.stdout,
                      "stdout_tail": rr.stdout[-600:], "stderr_tail": rr.stderr[-600:]}
             dumps = sorted(glob.glob(os.path.join(tdir, "*.table.json")))
@@ -363,6 +395,8 @@ def ensure(sets):
                         _extract_gen(sc, out, arrays=True)
                     elif s == "witness":
                         _extract_witness(sc, out)
+                    elif s == "matrix":
+                        _extract_witness(sc, out, jobs=matrix_jobs())
                     else:
                         raise ToolError("unknown fact set " + s)
                     open(os.path.join(out, ".done"), "w").write(str(time.time()))
